@@ -159,6 +159,49 @@ META.update({
     },
 })
 
+CLIENT_NOTE = (PROOF_NOTE + "L1 = atomic-operation model: each event (Start, datagram, tick, Close) runs to completion; "
+               "this is how the harness drives the real client. Not carried: interleavings inside an event (L2 / known "
+               "finding K1), the race detector's verdict, goroutine exit, the default ticker collector. ")
+META.update({
+    "C10": {
+        "text": "Proof over the L1 model of client.go+agent.go, for histories of ANY length over ANY number of ids: a handler "
+                "used by one Start is invoked at most once; never if not started; a failed Start registers nothing; after a "
+                "successful Start: invocations + still-registered = 1 in every continuation (run_eq: exact conservation). "
+                "The remaining gap to 'exactly once' is a registration that survives Close = known finding F6, which the "
+                "implementation-side predicate reports as KNOWN-FINDING. Correspondence: exhaustive + random histories "
+                "against the real client.",
+        "note": CLIENT_NOTE,
+        "technique": "Lean 4 conservation invariant over all histories (L1) + history correspondence with predicates",
+    },
+    "C11": {
+        "text": "Proof (L1): every transaction write in every history is byte-identical to the message of the Start that "
+                "registered its handler; a retransmission needs a registered transaction with attempts left and an error "
+                "event, which the agent emits only strictly after the deadline now+(attempt+1)*rto computed from the RTO "
+                "captured at Start; SetRTO leaves the table alone; attempt limit 0 never retransmits. The per-Start count "
+                "<= n+1 over whole histories is decided by the implementation-side predicate.",
+        "note": CLIENT_NOTE + "That Start copies the caller's message is decided by the correspondence (caller buffer "
+                "overwritten after each Start).",
+        "technique": "Lean 4 provenance invariant over all histories (L1) + history correspondence with predicates",
+    },
+    "C12": {
+        "text": "Proof (L1): whenever handler h is invoked with an event for id, some Start of the history registered h for "
+                "exactly that id (any number of in-flight transactions, any arrival order); the message seen is the "
+                "received datagram (first 1024 bytes); unknown ids go to the fallback only; undecodable datagrams are "
+                "no-ops. Recycling of pooled transaction objects is below L1: sequential reuse is exercised by the "
+                "correspondence over thousands of transactions; the concurrent double-put is known finding K1.",
+        "note": CLIENT_NOTE,
+        "technique": "Lean 4 provenance invariant over all histories (L1) + history correspondence with predicates",
+    },
+    "C15": {
+        "text": "Proof (L1): first Close succeeds (nil/CloseErr), closes the connection once iff owned, invokes nobody, writes "
+                "nothing; later Closes return ErrClientClosed; after Close every Start/Indicate returns ErrClientClosed "
+                "without writing and no operation produces any output. Goroutine exit and race freedom are observed "
+                "(Close must return; -race build), not proved.",
+        "note": CLIENT_NOTE,
+        "technique": "Lean 4 theorems over the L1 model + history correspondence incl. -race build",
+    },
+})
+
 NOT_APPLICABLE = {p: "check not built yet in this round (see DESIGN.md §4 for the plan)" for p in
-                  ["C10", "C11", "C12", "C14", "C15",
+                  ["C14", 
                    "C20"]}
